@@ -52,12 +52,13 @@ theorem c19_monotone (c : Cfg) (now : Int) (s : H) (a1 a2 : PeerAns) (hne : expi
         · simp [hle]; omega
 
 /-- (re)initialisation — empty store or expired stored head — adopts only a head from trusted peers
-    that is itself not expired, and otherwise fails with an error and leaves the subjective head alone -/
+    that is itself not expired, and otherwise fails with an error and leaves the subjective head alone.  In
+    particular the expired stored head is never handed out as a result (F29 repair). -/
 theorem c19_init_not_expired (c : Cfg) (now : Int) (subj : Option H) (a1 a2 : PeerAns)
     (hinit : subj = none ∨ ∃ s, subj = some s ∧ expired c now s = true) :
     let o := headCall c now subj a1 a2
     o.reqs = [.init] ∧
-    (∀ r, o.result = some r → (∃ h, a1 = .ok h ∧ expired c now h = false ∧ (r = h ∨ subj = some r))) ∧
+    (∀ r, o.result = some r → a1 = .ok r ∧ expired c now r = false ∧ o.subj = some r) ∧
     (o.result = none → o.subj = subj) := by
   intro o
   have hneed : needInit c now subj = true := by
@@ -71,24 +72,12 @@ theorem c19_init_not_expired (c : Cfg) (now : Int) (subj : Option H) (a1 a2 : Pe
     · simp [he]
     · have he' : expired c now h = false := by simpa using he
       simp only [he', Bool.false_eq_true, if_false]
-      refine ⟨by simp, ?_, ?_⟩
-      · intro r hr
-        refine ⟨h, rfl, he', ?_⟩
-        cases subj with
-        | none => simp at hr; exact Or.inl hr.symm
-        | some s =>
-          simp only at hr
-          by_cases hgt : h.height > s.height
-          · simp [hgt] at hr; exact Or.inl hr.symm
-          · simp [hgt] at hr; exact Or.inr (by rw [hr])
-      · intro hn
-        cases subj with
-        | none => simp at hn
-        | some s =>
-          simp only at hn
-          by_cases hgt : h.height > s.height
-          · simp [hgt] at hn
-          · simp [hgt] at hn
+      cases subj with
+      | none => simp [he']
+      | some s =>
+        by_cases hgt : h.height > s.height
+        · simp [hgt, he']
+        · simp [hgt]
 
 /-- an expired header is never adopted on (re)initialisation -/
 theorem c19_never_adopts_expired (c : Cfg) (now : Int) (a2 : PeerAns) (h : H) (he : expired c now h = true) :
